@@ -12,13 +12,20 @@ import (
 // C03 — the binary reader decodes every valid encoding to exactly its value.
 func c03Body(c *mc.Ctx) {
 	var d doc
-	switch c.Pick("source", 3) {
+	boundary := false
+	switch c.Pick("source", 4) {
 	case 0:
 		docs := corpus("full")
 		d = docs[c.Shard("doc", len(docs))]
 	case 1:
 		docs := corpus("reps")
 		d = docs[c.Shard("doc", len(docs))]
+	case 3:
+		// the representatives again behind a NOP pad sized so that the Reader's internal 4096-byte
+		// buffer ends at every offset of the encoding in turn
+		docs := corpus("reps")
+		d = docs[c.Shard("doc", len(docs))]
+		boundary = true
 	default:
 		// the writer-side generator (pairs, triples, symbol-count boundaries) as reader input
 		vals, class := genValues(c, c.Tier == "thorough")
@@ -35,7 +42,24 @@ func c03Body(c *mc.Ctx) {
 		}
 	}
 	data := refbin.EncodeStream(c, d.vals)
-	c.Case(func() string { return fmt.Sprintf("doc=%s bytes=%x", rm.StreamString(d.vals), clipBytes(data, 80)) })
+	if boundary && len(data) > 5 {
+		// BVM, then one NOP pad (tag 0E + 2-byte VarUInt length + zeros), then the rest
+		rest := data[4:]
+		n := len(rest) - 1
+		if n > 48 {
+			n = 48
+		}
+		k := 1 + c.Pick("buffer-ends-after", n)
+		padLen := bufioSize - k - 4 - 3
+		pad := append([]byte{0x0E, byte(padLen >> 7), byte(padLen&0x7F) | 0x80}, make([]byte, padLen)...)
+		data = append(append(append([]byte{}, data[:4]...), pad...), rest...)
+	}
+	c.Case(func() string {
+		if boundary {
+			return fmt.Sprintf("doc=%s behind a NOP pad, %d bytes in all, tail=%x", rm.StreamString(d.vals), len(data), data[len(data)-min(len(data), 60):])
+		}
+		return fmt.Sprintf("doc=%s bytes=%x", rm.StreamString(d.vals), clipBytes(data, 80))
+	})
 	c.Class(d.name)
 	got, calls, err, pan := readBack(data, nil)
 	c.Step(calls)
@@ -50,7 +74,11 @@ func c03Body(c *mc.Ctx) {
 		c.Fail("value-mismatch", diffKey(df), "expected %s got %s: %s", rm.StreamString(d.vals), rm.StreamString(got), df)
 		return
 	}
-	c.Observe(fmt.Sprintf("%x", clipBytes(data, 64)))
+	if boundary {
+		c.Observe(fmt.Sprintf("%x", data[len(data)-min(len(data), 64):]), len(data))
+	} else {
+		c.Observe(fmt.Sprintf("%x", clipBytes(data, 64)))
+	}
 	c.Nontrivial()
 }
 
@@ -67,6 +95,7 @@ func init() {
 		Title: "The binary reader decodes every valid binary encoding to exactly its value",
 		Rule: "every document of the corpus and of the C01 value-sequence generator (each catalogue scalar at top level / annotated / in list, sexp and struct under each field-name class; every token-class representative x annotation set x field name; all container shapes <=4 nodes depth <=3; boundary payload lengths 0/1/13/14/127/128/16383/16384 per container kind and under an annotation wrapper) " +
 			"x every encoding the independent spec-derived encoder produces with at most d deviations from canonical (inline vs VarUInt length, padded VarUInts, leading zero bytes in magnitudes/coefficients/SIDs, float32 vs float64, explicit zero coefficients, NOP pads of 1/2/17 bytes at every position incl. as struct fields, sorted-struct form, repeated version marker + LST); " +
+			"Fourth layer: every representative document in every such encoding behind a NOP pad sized so that the Reader's 4096-byte buffer ends after each of the first 48 bytes of the encoding in turn. " +
 			"non-trivial = the real Reader's full traversal was compared value-by-value with the model; distinct = distinct (document, encoded bytes prefix) digests",
 		Bounds:      map[string]string{"quick": "d<=1 on all documents, d<=2 on the representative layer", "thorough": "d<=2 on all documents, d<=3 on representatives"},
 		Assumptions: []string{"refbin encoder/decoder and refmodel equality are the trusted reference (cross-checked by selfcheck)", "values the Go API cannot carry (decimal exponent beyond int32) are out of domain"},
